@@ -20,6 +20,7 @@ import JsonV.Lemmas.QuoteSpan
 import JsonV.Lemmas.QuoteJString
 import JsonV.Lemmas.QuoteReformat
 import JsonV.Lemmas.GlueNameKey
+import JsonV.Lemmas.GlueEncQuote
 import JsonV.Gen.Lits
 
 namespace JsonV.Props.C11
@@ -239,6 +240,25 @@ theorem reformat_meaning_strict (f : QFlags) (src : Bytes) (ha : f.allowInvalid 
         rw [← this]
       rw [JsonV.Lemmas.QuoteReformat.preserve_loop_meaning f.html f.js src _ _ hcs]
 
+/-- **`preserve_is_jstring`**: over a literal the strict scanner accepts, the PreserveRawStrings loop (any EscapeForHTML /
+EscapeForJS combination) outputs a string literal of the strict grammar again. -/
+theorem preserve_is_jstring (html js : Bool) (src : Bytes) (n : Nat) (nc : Bool)
+    (h : consumeString true src = (n, Err.ok, nc)) :
+    JsonV.Spec.Grammar.JString true (preserveLoop html js n src) :=
+  (JsonV.Lemmas.QuoteReformat.preserve_strict html js src n nc h).1
+
+/-- **`preserve_idem`**: … and that output is a fixed point of the loop with the same flags (whatever follows it). -/
+theorem preserve_idem (html js : Bool) (src : Bytes) (n : Nat) (nc : Bool)
+    (h : consumeString true src = (n, Err.ok, nc)) (junk : Bytes) :
+    preserveLoop html js (preserveLoop html js n src).length (preserveLoop html js n src ++ junk) = preserveLoop html js n src :=
+  (JsonV.Lemmas.QuoteReformat.preserve_strict html js src n nc h).2.1 junk
+
+/-- … and unquotes to the same text, without error. -/
+theorem preserve_unquote (html js : Bool) (src : Bytes) (n : Nat) (nc : Bool)
+    (h : consumeString true src = (n, Err.ok, nc)) :
+    appendUnquote (preserveLoop html js n src) = appendUnquote (src.take n) :=
+  (JsonV.Lemmas.QuoteReformat.preserve_strict html js src n nc h).2.2
+
 /-- Every literal of C01's strict grammar is a `StringLiteral` (has an RFC 8259 meaning) and AppendUnquote returns it:
 `unquote_meaning` applies to everything the strict scanner accepts. -/
 theorem strict_literal_meaning (lit : Bytes) (h : JsonV.Spec.Grammar.JString true lit) :
@@ -336,6 +356,22 @@ theorem quote_is_jstring (f : QFlags) (v : Bool) (s : Bytes) : JsonV.Spec.Gramma
 theorem quote_consumed (v : Bool) (f : QFlags) (s : Bytes) :
     ∃ nc, consumeString v (appendQuote f s).1 = ((appendQuote f s).1.length, Err.ok, nc) :=
   JsonV.Lemmas.QuoteJString.consumeString_appendQuote v f s
+
+/-! #### the Encoder model's own quote / unquote (slice sm, Model/Encoder.lean) -/
+
+open JsonV.Lemmas.GlueEncQuote in
+/-- The Encoder model's AppendQuote is this slice's AppendQuote: output and error flag, every option set and input. -/
+theorem enc_appendQuote_eq (o : JsonV.Model.Encoder.Opts) (s : Bytes) :
+    JsonV.Model.Encoder.appendQuote o s =
+      ((appendQuote (flagsOf o) s).1, decide ((appendQuote (flagsOf o) s).2 = Err.invalidUTF8)) :=
+  JsonV.Lemmas.GlueEncQuote.appendQuote_eq o s
+
+open JsonV.Lemmas.GlueEncQuote in
+/-- The Encoder model's `unquote` of a quoted string is the lossy input = this slice's AppendUnquote of it. -/
+theorem enc_unquote_appendQuote (o : JsonV.Model.Encoder.Opts) (s : Bytes) :
+    JsonV.Model.Encoder.unquote (JsonV.Model.Encoder.appendQuote o s).1 = lossy s ∧
+    JsonV.Model.Encoder.unquote (JsonV.Model.Encoder.appendQuote o s).1 = (appendUnquote (appendQuote (flagsOf o) s).1).1 :=
+  JsonV.Lemmas.GlueEncQuote.unquote_appendQuote o s
 
 /-! #### name keys (C01 `nameKey` / C12 `Fmt.nameKey`) -/
 
